@@ -37,6 +37,11 @@ def scope_c02(t):
     return not (scope_c03(t) or scope_c04(t) or scope_c09(t))
 
 
+def _is_combinator_root(root):
+    parts = root.split("::")
+    return len(parts) > 1 and parts[0] == "operators" and parts[1] in COMBINATORS
+
+
 def _only(r, prefixes, contains=None):
     """Restrict a multi-clause rule result to the clauses (first key element) a property owns."""
     r.instances = [i for i in r.instances if i[0] and i[0][0] in prefixes
@@ -66,10 +71,12 @@ def rules_for(pid):
         "C02": [
             ("H-complete", lambda c: RH.h_complete(c.P, c.E, c.H, scope_c02), 24),
             ("H-serial", lambda c: RH.h_serial(c.P, c.E, c.H), 48),
+            ("K-fresh-state", lambda c: RK.k_fresh_state(c.P, c.E, lambda root: not _is_combinator_root(root)), 30),
         ],
         "C03": [
             ("H-register-first", lambda c: RH.h_register_first(c.P, c.E, c.H), 16),
             ("H-complete", lambda c: RH.h_complete(c.P, c.E, c.H, scope_c03), 11),
+            ("K-fresh-state", lambda c: RK.k_fresh_state(c.P, c.E, _is_combinator_root), 8),
             ("J6-ready-set-go", lambda c: _only(RJ.j_rules(c.P, c.E), ("J6",)), 4),
             ("S-fresh-serial", lambda c: RO.s_fresh_serial(c.P, c.E), 2),
             ("S-remove-and-test", lambda c: RO.s_remove_and_test(c.P, c.E), 1),
@@ -81,6 +88,7 @@ def rules_for(pid):
             ("H-role-agreement", lambda c: RH.h_role_agreement(c.P, c.E, c.H), 40),
             ("H-complete", lambda c: RH.h_complete(c.P, c.E, c.H, scope_c04), 5),
             ("T-rxerror", lambda c: RH.rxerror_immutable(c.P, c.E), 6),
+            ("J-terminal", lambda c: _only(RJ.j_rules(c.P, c.E), ("J3", "J4")), 4),
             ("K-fresh-state", lambda c: RK.k_fresh_state(c.P, c.E, lambda root: root.startswith("operators::")
                                                         and root.split("::")[1] in RECOVERY), 5),
         ],
@@ -99,6 +107,7 @@ def rules_for(pid):
             ("R1", lambda c: RH.r1_retry_drops_first(c.P, c.E, c.H), 3),
             ("S-fresh-serial", lambda c: RO.s_fresh_serial(c.P, c.E), 2),
             ("SUB-live-gate", lambda c: RO.sub_live_gate(c.P, c.E), 1),
+            ("H-register-first", lambda c: RH.h_register_first(c.P, c.E, c.H), 16),
         ],
         "C07": [
             ("L1", lambda c: RL.l1_reentrancy(c.P, c.E, c.H), 32),
@@ -146,7 +155,7 @@ def rules_for(pid):
         ],
         "C13": [
             ("P", lambda c: RJ.p_rules(c.P, c.E), 11),
-            ("J", lambda c: _only(RJ.j_rules(c.P, c.E), ("J1", "J2", "J5")), 6),
+            ("J", lambda c: _only(RJ.j_rules(c.P, c.E), ("J1", "J2", "J5", "J6", "J7")), 6),
         ],
         "C15": [
             ("T1", lambda c: RS.t1_abort_wired(c.P, c.E), 5),
